@@ -60,6 +60,14 @@ def make_fdae():
     return nFDAE(F, J, {"h": np.array([0.05])}, 1)
 
 
+def _int_dae():
+    """x' = -1.5 x^2, z' = -2 z^2 + 0.5: slopes -1.5, -17.5 at the start (1, 3), not integers; nonlinear, so the predictor matters"""
+    from scipy.sparse import csc_array
+    from Solverz.num_api.num_eqn import nDAE
+    return nDAE(csc_array(np.eye(2)), lambda t, y, p: np.array([-1.5 * y[0] ** 2, -2.0 * y[1] ** 2 + 0.5]),
+                lambda t, y, p: csc_array(np.array([[-3.0 * y[0], 0.0], [0.0, -4.0 * y[1]]])), {})
+
+
 def opt_values(rng):
     return dict(rtol=float(rng.choice([1e-3, 1e-5, 1e-7])), atol=float(rng.choice([1e-6, 1e-8])),
                 hinit=rng.choice([None, 0.01, 0.1]), hmax=rng.choice([None, None, 0.5, 0.05]),
@@ -233,6 +241,42 @@ def run(rep, tier, seed):
                 break
         if h < 3:
             hist_samples.append(history)
+    # ---- equal values, other array types: an integer-typed or single-precision y0 / tspan that holds the same numbers is an equal
+    #      argument (values that are exact in every type involved); the results must be bit-identical
+    for name in ("Rodas", "ode15s", "backward_euler", "implicit_trapezoid"):
+        kind, call = kinds[name]
+        mk = lambda: _int_dae()
+        for what, y_alt, ts_alt in (("y0 int64", np.array([1, 3]), None), ("y0 float32", np.array([1, 3], dtype=np.float32), None),
+                                    ("tspan float32", None, np.array([0, 2], dtype=np.float32)), ("tspan int8", None, np.array([0, 2], dtype=np.int8)),
+                                    ("tspan list of int", None, [0, 2])):
+            try:
+                o = dict(rtol=1e-5, atol=1e-8, step_size=0.125)
+                ref = quiet(call, mk(), np.array([0.0, 2.0]), np.array([1.0, 3.0]), Opt(**o))
+                alt = quiet(call, mk(), np.array([0.0, 2.0]) if ts_alt is None else ts_alt, np.array([1.0, 3.0]) if y_alt is None else y_alt, Opt(**o))
+                ncalls += 2
+                if res_digest(ref) != res_digest(alt):
+                    dT = len(np.asarray(ref.T)) - len(np.asarray(alt.T))
+                    fails.append((dict(history=[dict(solver=name, arguments="float64 arrays"), dict(solver=name, arguments=what)], call_index=1),
+                                  f"{name} with equal argument values given as {what} returns a different result than with float64 arrays "
+                                  f"({len(np.asarray(ref.T))} vs {len(np.asarray(alt.T))} returned times, last state {np.asarray(ref.Y)[-1]} vs {np.asarray(alt.Y)[-1]})"))
+            except Exception as ex:  # noqa
+                rep.notes.append(f"dtype probe {name}/{what}: {type(ex).__name__}: {str(ex)[:80]}")
+    # ---- the result never aliases the caller's start: refilling the start array for the next run must not change a result
+    for name in ("nr_method", "continuous_nr", "lm", "sicnm"):
+        kind, call = kinds[name]
+        try:
+            mdl = factories[kind]()
+            root = quiet(nr_method, factories[kind](), starts[kind].copy(), Opt(ite_tol=1e-13)).y
+            start = np.array(np.asarray(root.array if hasattr(root, "array") else root), dtype=float)     # already a root: no iteration needed
+            s1 = quiet(call, mdl, None, start, Opt(ite_tol=1e-6))
+            ncalls += 1
+            y1 = np.asarray(s1.y.array if hasattr(s1.y, "array") else s1.y)
+            if np.shares_memory(y1, start):
+                fails.append((dict(history=[dict(solver=name, start="a root of the model (ndarray)")], call_index=0),
+                              f"{name} returns the caller's own start array as its result (started at a root): refilling the start for a "
+                              f"second run changes the first result"))
+        except Exception as ex:  # noqa
+            rep.notes.append(f"alias probe {name}: {type(ex).__name__}: {str(ex)[:80]}")
     # ---- overwrite probe: a result is kept, the same solver is called again on a problem of the same size that needs more
     #      iterations / steps (tighter tolerance, farther start); the kept result must be untouched
     for name in ("nr_method", "continuous_nr", "lm", "sicnm", "Rodas", "ode15s", "backward_euler", "implicit_trapezoid", "fdae_solver"):
